@@ -189,6 +189,11 @@ class Adapter:
         transition (independently of the env's own done flag), None if there is none, or "unmodelled"."""
         return "unmodelled"
 
+    def events(self, ps: Any, action: Any, s: Any, ts: Any, env: Any, cfg: Dict[str, Any]) -> List[str]:
+        """Reach probes: names of the rare / interesting conditions this transition exhibits (ps and action are None
+        for the reset state). Only counted (evidence "probes", prefix "ev:"); never used for a verdict."""
+        return []
+
     # ---- policies (omniscient clients); return None to fall back ------------------------------
     def policy_survive(self, s: Any, env: Any, rng: np.random.Generator, legal: Optional[np.ndarray]) -> Any:
         return None
